@@ -135,3 +135,45 @@ PROPS["C04"] = {
     "chunk": 3000,
 }
 MANIFEST_TEXT["C04"] = {"level": "todo", "note": "todo", "technique": "TLA+ step-machine models of the tokeniser and of pattern parsing (progress, index safety, termination) checked by TLC; exhaustive short strings and seeded fuzz replayed; traces validated by TLC"}
+
+PROPS["C07"] = {
+    "title": "String predicates are exact for all strings, single or batched",
+    "models": lambda tier: [
+        {"module": "MC_Str",
+         "constants": {"MaxNeedle": 2, "MaxHay": q(tier, 3, 4), "PairNeedle": q(tier, 1, 1), "PairHay": q(tier, 2, 3)},
+         "invariants": ["SingleOk", "BatchOk", "RewriteOk", "Emit"], "forms": ["single", "pair"], "workers": 8},
+        {"module": "MC_Ident", "constants": {"MaxLen": q(tier, 3, 4), "Dev": "{}", "IcBuild": "FALSE"},
+         "invariants": ["NoPanic", "WriteRead", "Emit"], "forms": ["ok", "err", "unk"], "workers": 8},
+    ],
+    "gens": lambda tier: [{"topic": "str", "n": q(tier, 600, 12000)}],
+    "rules": ["oracle", "ident_parse", "ident_panic", "load_outcome", "match_panic"],
+    "chunk": 1000,
+}
+MANIFEST_TEXT["C07"] = {"level": "todo", "note": "todo", "technique": "TLA+ string relations and Aho-Corasick hit-set model (TauStr), TLC; exhaustive small alphabets replayed; TLC trace validation"}
+
+PROPS["C09"] = {
+    "title": "Numeric comparisons and casts are order-correct and overflow-safe",
+    "models": lambda tier: [
+        {"module": "MC_Num", "constants": {},
+         "invariants": ["Trichotomy", "Unions", "NaNFalse", "EngSound", "Emit"],
+         "forms": ["key", "intkey", "fltkey", "strkey", "cond_int", "cond_int_rev", "cond_flt", "cond_flt_rev",
+                   "cond_int_fields", "cond_flt_fields", "cond_str_fields"], "workers": 8},
+    ],
+    "gens": lambda tier: [{"topic": "num", "n": q(tier, 500, 20000)}],
+    "rules": ["oracle", "tri_oracle", "tri_both", "match_panic", "load_outcome"],
+    "chunk": 150,
+}
+MANIFEST_TEXT["C09"] = {"level": "todo", "note": "todo", "technique": "TLA+ exact digit-sequence arithmetic (TauNum) checked by TLC; boundary universe replayed; TLC trace validation incl. random 64-bit values"}
+
+DEV_PATH = '{}'
+PROPS["C10"] = {
+    "title": "Field paths resolve to exactly the addressed value",
+    "models": lambda tier: [
+        {"module": "MC_Path", "constants": {"Depth": q(tier, 1, 2), "PathLen": q(tier, 3, 2), "Dev": DEV_PATH},
+         "invariants": ["WalkIsFind", "IdealWalkIsFind", "Emit"], "forms": ["doc"], "workers": 8},
+    ],
+    "gens": lambda tier: [{"topic": "path", "n": q(tier, 500, 10000)}],
+    "rules": ["find_value", "find_panic", "oracle", "tri_oracle", "match_panic"],
+    "chunk": 400,
+}
+MANIFEST_TEXT["C10"] = {"level": "todo", "note": "todo", "technique": "TLA+ Find (descent) vs the engine's cursor walk (TauDoc), TLC; every document shape x path replayed on four representations; TLC trace validation"}
